@@ -325,7 +325,21 @@ func runC05(rc *RC) {
 		case "TokenWriter":
 			c.spec = genSpec(rc, e.NS, c.marker, false, false)
 			w := s.TokenWriter()
-			_, err := xmlstream.Copy(w, specReader(c.spec))
+			// token by token, with flushes in the middle of the element now and then
+			var toks []xml.Token
+			c.spec.tokens(&toks)
+			var err error
+			for _, tk := range toks {
+				simrt.Yield("tok")
+				if err = w.EncodeToken(xml.CopyToken(tk)); err != nil {
+					break
+				}
+				if ch.Chance("workload", 1, 5) {
+					if err = w.Flush(); err != nil {
+						break
+					}
+				}
+			}
 			if e2 := w.Close(); err == nil {
 				err = e2
 			}
